@@ -172,7 +172,7 @@ theorem boundsOnly_append (a b : List BoF) : boundsOnly (a ++ b) = boundsOnly a 
   | nil => rfl
   | cons x t ih => cases x <;> simp [boundsOnly, ih]
 
-theorem boundsOnly_map_bound (l : List UserBounds) : boundsOnly (l.map .bound) = l := by
+theorem boundsOnly_map_bound_j (l : List UserBounds) : boundsOnly (l.map .bound) = l := by
   induction l with
   | nil => rfl
   | cons x t ih => simp [boundsOnly, ih]
@@ -188,7 +188,7 @@ theorem texts_expand (opt : Opt) (tok : Tok) (sep : Nat → Bytes) : ∀ (l : Li
   | .bound b :: t, hz => by
     have ih := texts_expand opt tok sep t (fun b hb => hz b (List.mem_cons_of_mem _ hb))
     have hzb := hz b (List.mem_cons_self ..)
-    simp only [mapBounds, boundsOnly_append, boundsOnly_map_bound, List.map_append, selectedParts, ih]
+    simp only [mapBounds, boundsOnly_append, boundsOnly_map_bound_j, List.map_append, selectedParts, ih]
     congr 1
     unfold expandBound
     cases hres : resolve b tok.numFields with
@@ -230,7 +230,7 @@ theorem emit_json_ok (cfg : Cfg) (tok : Tok) (sep : Nat → Bytes) (hjson : cfg.
     simp only [List.map_cons, List.cons.injEq] at h
     have ih := emit_json_ok cfg tok sep hjson hjoin us ts h.2 (fun t' h' => hv t' (List.mem_cons_of_mem _ h'))
     have hlen : us.length = ts.length := by simpa using congrArg List.length h.2
-    rw [List.map_cons, emit_bound, h.1, ih, countBounds_map_bound]
+    rw [List.map_cons, emit_bound, h.1, ih, countBounds_map_bound_u]
     simp only [Option.bind_some, renderS, hjson, if_true, hv t (List.mem_cons_self ..), hjoin,
       Bool.true_and]
     cases ts with
